@@ -493,6 +493,9 @@ func genFmtCase(r *Rng) *fmtCase {
 	if hasLocal {
 		p.Types = append(p.Types, PType{Name: "Local", Kind: "s", Tags: []PTag{{"gengo:rec", []string{"false"}}}})
 	}
+	if r.Chance(50) {
+		p.Extra = append(p.Extra, pipeBase+"."+c01Gen+".go") // the output of an earlier, longer generation is in the way
+	}
 	s.Pkgs = []PPkg{p}
 	s.Entry = []int{0}
 	s.Gens = []PGen{{Name: c01Gen, CustomNew: r.Bool()}}
